@@ -18,20 +18,21 @@ Ended(stop) == hist' = Append(hist, [flow |-> cur, stop |-> stop, obs |-> Obs(s'
 
 GNext ==
   \/ \E fl \in DOMAIN FlowDef : Start(fl) /\ cur' = fl /\ hist' = hist
-  \/ (O1 \/ Ow \/ Os \/ O2 \/ O3 \/ O4 \/ O5 \/ O6 \/ CallBackup \/ CallWrite \/ CallClose
-      \/ B1 \/ B2 \/ Bt \/ B3 \/ B4 \/ B5 \/ B6 \/ W1 \/ W2 \/ C1) /\ UNCHANGED <<hist, cur>>
+  \/ (O1 \/ Ow \/ Os \/ O2 \/ O3 \/ O4 \/ O5 \/ O6 \/ CallBackup \/ CallWrite \/ CallBigWrite \/ CallClose
+      \/ B1 \/ B2 \/ Bt \/ B3 \/ B4 \/ B5 \/ B6 \/ W1 \/ W2 \/ V1 \/ V2 \/ C1) /\ UNCHANGED <<hist, cur>>
   \/ C2 /\ Ended("done")
   \/ Crash /\ Ended(pc)
 
 GSpec == GInit /\ [][GNext]_gvars
 
 DevSeq == IF Dev = {} THEN <<>> ELSE IF Dev = DevWal THEN <<"StaleWalKept">>
-          ELSE IF Dev = DevBak THEN <<"BackupNotAtomic">> ELSE <<"StaleWalKept", "BackupNotAtomic">>
+          ELSE IF Dev = DevBak THEN <<"BackupNotAtomic">>
+          ELSE IF Dev = DevMode THEN <<"JournalModeKept">> ELSE <<"StaleWalKept", "BackupNotAtomic">>
 
 Emit ==
   (pc = "idle" /\ runs >= 1) =>
     LET r == Reopened(s) IN
-    PrintT(<<"CASE", ToJson([dev |-> DevSeq, runs |-> hist, expected |-> s.expected,
+    PrintT(<<"CASE", ToJson([dev |-> DevSeq, start |-> s.start, runs |-> hist, expected |-> s.expected,
                              pred |-> Pages(Visible(r)), sound |-> (r.main.st = "db" /\ ~r.mixed),
                              robs |-> Obs(r)])>>)
 GenInv == Emit
